@@ -350,6 +350,7 @@ class SimFile(io.BufferedIOBase):
         self._pos = 0
         self._buf = bytearray()
         self._base = 0
+        self._flushed = 0         # how much of _buf has reached the store
         store.nopen += 1
         store.open_handles += 1
         store.max_open = max(store.max_open, store.open_handles)
@@ -472,8 +473,21 @@ class SimFile(io.BufferedIOBase):
         if self.closed:
             return
         if self.writable() and not self.fmode.startswith('r'):
+            # like a file descriptor: a 'wb' handle writes at its own offset
+            # (over whatever is there, keeping what lies beyond - another
+            # handle may have rewritten the file since), an 'ab' handle at
+            # the current end
             cur = self.store.files.get(self.fname, b'')
-            self.store.files[self.fname] = cur[:self._base] + bytes(self._buf)
+            new = bytes(self._buf[self._flushed:])
+            if new:
+                if self.fmode.startswith('a'):
+                    cur = cur + new
+                else:
+                    at = self._base + self._flushed
+                    cur = cur[:at].ljust(at, b'\0') + new + \
+                        cur[at + len(new):]
+                self.store.files[self.fname] = cur
+                self._flushed = len(self._buf)
             self.store.charge('flushes')
 
     def close(self):
